@@ -9,7 +9,7 @@ from ref import calendar as cal
 PID = "C07"
 LEVEL = "model_checking"
 RULE = (
-    "(a) window matching: a pool of 18 range()/cron() specifications (daily, wrapping, nested, dated, multi-day dated, mm/dd, mm/dd windows wrapping over the new year, "
+    "(a) window matching: a pool of 19 range()/cron() specifications (one cron with a seconds field) (daily, wrapping, nested, dated, multi-day dated, mm/dd, mm/dd windows wrapping over the new year, "
     "weekday, sunrise/sunset with offsets, now-relative, range(now, now), sub-second wrap around midnight, today/tomorrow, cron "
     "hour range, cron step/weekday, cron single minute), each plain and 'not'-prefixed: all single specs, all ordered pairs, all "
     "unordered triples (thorough: all ordered triples and unordered quadruples) x every evaluation time derived from the list "
@@ -57,12 +57,13 @@ POOL = [
     "range(today 11:00, tomorrow 11:00)",
     "range(12/20, 01/05)",
     "range(12/31 22:00, 1/1 2:00)",
+    "cron(* 12 * * * 0-29)",
 ]
 NY_DAYS = [dt.date(2019, 12, 31), dt.date(2020, 1, 1), dt.date(2019, 12, 19)]
 
 
 def signed(tier):
-    pool = POOL if tier == "thorough" else POOL[:13] + POOL[14:15] + POOL[16:17]
+    pool = POOL if tier == "thorough" else POOL[:13] + POOL[14:15] + POOL[16:17] + POOL[18:19]
     return [s for p in pool for s in (p, "not " + p)]
 
 
@@ -107,8 +108,12 @@ def split_range(spec):
 def spec_matches(spec, t, startup, loc):
     """Unsigned spec at time t."""
     if spec.startswith("cron("):
-        c = cal.Cron(spec[5:-1])
-        return t.minute in c.minute and t.hour in c.hour and c.day_ok(t.date())
+        fields = spec[5:-1].split()
+        c = cal.Cron(" ".join(fields[:5]))
+        ok = t.minute in c.minute and t.hour in c.hour and c.day_ok(t.date())
+        if len(fields) == 6:  # croniter's optional sixth field: seconds
+            ok = ok and t.second in cal._field(fields[5], 0, 59)
+        return ok
     A, B = split_range(spec)
     start = resolve(A, t.date(), startup, loc)
     end = resolve(B, start.date(), startup, loc)
@@ -135,7 +140,12 @@ def eval_times(specs, startup, loc, days=DAYS):
         for s in specs:
             u = s[4:] if s.startswith("not ") else s
             if u.startswith("cron("):
-                c = cal.Cron(u[5:-1])
+                c = cal.Cron(" ".join(u[5:-1].split()[:5]))
+                if len(u[5:-1].split()) == 6:
+                    secs = sorted(cal._field(u[5:-1].split()[5], 0, 59))
+                    b0 = dt.datetime(day.year, day.month, day.day, sorted(c.hour)[0], sorted(c.minute)[0])
+                    pts.update({b0 + dt.timedelta(seconds=secs[0]), b0 + dt.timedelta(seconds=secs[-1]), b0 + dt.timedelta(seconds=secs[-1] + 1),
+                                b0 + dt.timedelta(seconds=45)})
                 hs, ms = sorted(c.hour), sorted(c.minute)
                 for h in (hs[0], hs[-1]):
                     for m in (ms[0], ms[-1]):
